@@ -85,6 +85,15 @@ func SuperMain(propID, tier, replay string) int {
 	return s.run()
 }
 
+// outRoot is where evidence and replays go: /verif, unless VERIF_OUT
+// redirects them (used only for seeded-change experiments on scratch trees).
+func (s *Super) outRoot() string {
+	if o := os.Getenv("VERIF_OUT"); o != "" {
+		return o
+	}
+	return s.Root
+}
+
 func (s *Super) run() int {
 	p := s.Prop
 	n := p.Cases(s.Tier, s.Seed)
@@ -544,7 +553,7 @@ func (s *Super) finish(a *Agg, n int) int {
 		}
 		newViol += len(vs)
 		v := vs[0]
-		dir := filepath.Join(s.Root, "replays", p.ID)
+		dir := filepath.Join(s.outRoot(), "replays", p.ID)
 		os.MkdirAll(dir, 0o755)
 		path := filepath.Join(dir, sigFile(sig)+".json")
 		rp := map[string]interface{}{
@@ -654,8 +663,8 @@ func (s *Super) writeEvidence(a *Agg, n, newViol int, knownSigs map[string]int, 
 		"violations":  newViol,
 	}
 	b, _ := json.MarshalIndent(ev, "", " ")
-	os.MkdirAll(filepath.Join(s.Root, "evidence"), 0o755)
-	os.WriteFile(filepath.Join(s.Root, "evidence", p.ID+".json"), b, 0o644)
+	os.MkdirAll(filepath.Join(s.outRoot(), "evidence"), 0o755)
+	os.WriteFile(filepath.Join(s.outRoot(), "evidence", p.ID+".json"), b, 0o644)
 }
 
 // replay re-runs the single case recorded in a replay file, in a child
